@@ -13,11 +13,13 @@ DEDUCTIVE = [{'fid': f, 'mode': 'heap'} for f in (
     'odml/validation.py::section_sections_cardinality',
     'odml/validation.py::property_values_cardinality',
     'odml/validation.py::Validation.error',
+    'odml/validation.py::section_unique_name_type',
+    'odml/validation.py::property_unique_names',
 )]
 TIMEOUT_S = 20
 EXPLANATION = ('seven of the documented rules (required name/type -> error; unspecified type, name equal to id, unsatisfied '
                'dependency (for plain, non-tuple values), the three cardinality rules -> warning) are proved against iff-specifications from the current source, for all objects: issue '
-               'count, rank and bound object; the collector Validation.error appends every issue unconditionally; the remaining rules (ids, sibling names, dependency, values/dtype) and the whole-run '
+               'count, rank and bound object; the collector Validation.error appends every issue unconditionally; the two sibling-uniqueness rules report nothing on a tree with unique sibling names (no false positive; first-class key functions and set(map(..)) are modelled); the remaining rules (ids, sibling names, dependency, values/dtype) and the whole-run '
                'traversal are decided by the bounded stand-in, which compares with an independent evaluator')
 from props.common import HEAP_ASSUMPTIONS as ASSUMPTIONS   # noqa: E402
 
